@@ -1240,6 +1240,11 @@ func (ctx *RenderContext) getItem(container, index interface{}) (interface{}, er
 				}
 			}
 
+			// A list or a hash can be written as an index but is no key of any map
+			if !mapKey.Comparable() {
+				return nil, nil
+			}
+
 			mapValue := v.MapIndex(mapKey)
 			if mapValue.IsValid() {
 				return mapValue.Interface(), nil
